@@ -3,7 +3,8 @@
 From Coq Require Import String List NArith ZArith Bool Arith Lia.
 From FIM Require Import Base.Str Gen.Rules Model.T7Graph Model.T7Ops Model.T7WF Model.T7Steps Model.T7Rel
      Proofs.T7Tables Proofs.T7WFRefl Proofs.T7Frame Proofs.T7Units Proofs.T7Api Proofs.T7Api2 Proofs.T7Api3
-     Proofs.T7RelUnits Proofs.T7RelRun Proofs.T7RelCp Proofs.T7Api4 Proofs.T7RelAdd Proofs.T7Api5 Proofs.T7Api6.
+     Proofs.T7RelUnits Proofs.T7RelRun Proofs.T7RelCp Proofs.T7Api4 Proofs.T7RelAdd Proofs.T7Api5 Proofs.T7Api6
+     Proofs.T7Rem Proofs.T7Rem2 Proofs.T7Rem3 Proofs.T7Rem4 Proofs.T7Rem5.
 Import ListNotations.
 
 Lemma resolve_cls g k x : resolve g k x = true -> cls_is g x k = true.
@@ -15,7 +16,14 @@ Qed.
 Lemma run_op_preserves sub fl hint o s s' r :
   WF (sg s) -> op_pre fl (sg s) o = true -> run_op sub fl hint o s = (s', r) -> WF (sg s').
 Proof.
-  intros W P R. destruct o; cbv beta iota delta [op_pre] in P; try (eapply run_op_preserves_basic; eassumption); unfold run_op in R.
+  intros W P R. destruct o; cbv beta iota delta [op_pre] in P; try (eapply run_op_preserves_basic; eassumption); unfold run_op in R;
+    try (unfold rem_pre in P; apply andb_true_iff in P as [P Q4]; apply andb_true_iff in P as [P Q3]; apply andb_true_iff in P as [Q1 Q2]).
+  - (* remove_node *) eapply api_t_remove_node; eauto.
+  - (* node.remove_component *) peel R W. eapply api_node_remove_component; eauto.
+  - (* remove_facility *) eapply api_t_remove_facility; eauto.
+  - (* remove_switch *) eapply api_t_remove_switch; eauto.
+  - (* remove_network_service *) eapply api_t_remove_ns; eauto.
+  - (* node.remove_network_service *) peel R W. eapply api_node_remove_ns; eauto.
   - (* connect_interface *)
     apply andb_true_iff in P as [P P3]. apply andb_true_iff in P as [P1 P2]. apply negb_true_iff in P3.
     peel R W. peel R W. apply resolve_cls in Hm. apply resolve_cls in Hm0.
